@@ -197,8 +197,7 @@ func (r *fragmentingReader) Close() error {
 
 	if len(r.curChunk) > 0 {
 		// There was more data remaining in the chunk
-		r.err = errMoreDataInArgument
-		return r.err
+		return r.failed(errMoreDataInArgument)
 	}
 
 	// Several possibilities here:
@@ -219,8 +218,7 @@ func (r *fragmentingReader) Close() error {
 	if last {
 		if len(r.remainingChunks) > 0 || r.hasMoreFragments {
 			// We expect more arguments
-			r.err = errExpectedMoreArguments
-			return r.err
+			return r.failed(errExpectedMoreArguments)
 		}
 
 		r.doneReading(nil)
@@ -241,8 +239,7 @@ func (r *fragmentingReader) Close() error {
 
 	// If there are no more chunks in this fragment, and no more fragments, we have an issue
 	if !r.hasMoreFragments {
-		r.err = errNoMoreFragments
-		return r.err
+		return r.failed(errNoMoreFragments)
 	}
 
 	// There are no more chunks in this fragments, but more fragments - get the next fragment
@@ -276,7 +273,7 @@ func (r *fragmentingReader) recvAndParseNextFragment(initial bool) error {
 	if r.checksum == nil {
 		r.checksum = r.curFragment.checksumType.New()
 	} else if r.checksum.TypeCode() != r.curFragment.checksumType {
-		return errMismatchedChecksumTypes
+		return r.failed(errMismatchedChecksumTypes)
 	}
 
 	// Split fragment into underlying chunks
@@ -285,7 +282,7 @@ func (r *fragmentingReader) recvAndParseNextFragment(initial bool) error {
 	for r.curFragment.contents.BytesRemaining() > 0 && r.curFragment.contents.Err() == nil {
 		chunkSize := r.curFragment.contents.ReadUint16()
 		if chunkSize > uint16(r.curFragment.contents.BytesRemaining()) {
-			return errChunkExceedsFragmentSize
+			return r.failed(errChunkExceedsFragmentSize)
 		}
 		chunkData := r.curFragment.contents.ReadBytes(int(chunkSize))
 		r.remainingChunks = append(r.remainingChunks, chunkData)
@@ -293,19 +290,27 @@ func (r *fragmentingReader) recvAndParseNextFragment(initial bool) error {
 	}
 
 	if r.curFragment.contents.Err() != nil {
-		return r.curFragment.contents.Err()
+		return r.failed(r.curFragment.contents.Err())
 	}
 
 	// Validate checksums
 	localChecksum := r.checksum.Sum()
 	if bytes.Compare(r.curFragment.checksum, localChecksum) != 0 {
-		r.err = errMismatchedChecksums
-		return r.err
+		return r.failed(errMismatchedChecksums)
 	}
 
 	// Pull out the first chunk to act as the current chunk
 	r.curChunk, r.remainingChunks = r.remainingChunks[0], r.remainingChunks[1:]
 	return nil
+}
+
+// failed is called when a received fragment is malformed or fails checksum
+// validation. The message can never be completed, so we're done reading it
+// (which lets the receiver release the underlying message exchange).
+func (r *fragmentingReader) failed(err error) error {
+	r.err = err
+	r.doneReading(err)
+	return r.err
 }
 
 func (r *fragmentingReader) doneReading(err error) {
